@@ -118,11 +118,13 @@ class PandasMaterializer(FormulaMaterializer):
         ]
 
         # Pre-multiply factors with only one set of values (improves performance)
-        solo_factors = {}
+        # Note: kept as a list of (name, values) pairs rather than merged into
+        # one dict, because distinct factors may share an encoded column name.
+        solo_factors = []
         indices = []
         for i, factor in enumerate(factors):
             if len(factor) == 1:
-                solo_factors.update(factor)
+                solo_factors.extend(factor.items())
                 indices.append(i)
         if solo_factors:
             for index in reversed(indices):
@@ -130,17 +132,18 @@ class PandasMaterializer(FormulaMaterializer):
             if spec.output == "sparse":
                 factors.append(
                     {
-                        ":".join(solo_factors): functools.reduce(
-                            spsparse.csc_matrix.multiply, solo_factors.values()
+                        ":".join(p[0] for p in solo_factors): functools.reduce(
+                            spsparse.csc_matrix.multiply,
+                            (p[1] for p in solo_factors),
                         )
                     }
                 )
             else:
                 factors.append(
                     {
-                        ":".join(solo_factors): functools.reduce(
+                        ":".join(p[0] for p in solo_factors): functools.reduce(
                             numpy.multiply,
-                            (numpy.asanyarray(p) for p in solo_factors.values()),
+                            (numpy.asanyarray(p[1]) for p in solo_factors),
                         )
                     }
                 )
